@@ -35,6 +35,7 @@ Proof.
                 spool smin rpool rmax msgs 1 [] CleanEOF Hp Hf) as H.
   rewrite app_nil_r in H. exact H.
 Qed.
+Print Assumptions within_limit_accepted.
 
 (* A frame whose wire size exceeds N, at ANY position i: the i messages before
    it are delivered, that Receive fails with invalid_argument and the frame's
@@ -51,6 +52,7 @@ Proof.
   exact (limit_wire_lemma M marshal unmarshal_into compress decompress zero
            codec_roundtrip empty_is_zero compress_roundtrip compress_nonempty).
 Qed.
+Print Assumptions limit_wire.
 
 (* A compressed frame small on the wire that decompresses beyond N. *)
 Theorem limit_decompressed :
@@ -61,6 +63,7 @@ Theorem limit_decompressed :
   fst (env_unmarshal_f M unmarshal_into decompress rmax true zero
          (frame flag_compressed payload ++ rest, f)) = UErr (RErr code_invalid_argument).
 Proof. exact (limit_decompressed_lemma M unmarshal_into decompress zero). Qed.
+Print Assumptions limit_decompressed.
 End C09.
 Print Assumptions within_limit_accepted.
 Print Assumptions limit_wire.
